@@ -400,6 +400,24 @@ Proof.
     + cbn in H1. discriminate.
 Qed.
 
+(* blanking never turns an acceptable secret leaf into an unacceptable one *)
+Lemma blank_oks j : oks (jsecrets j) -> oks (jsecrets (blank_json_keys j)).
+Proof.
+  induction j as [j Hl|l IH|kvs IH] using json_ind'; intros H.
+  - destruct j; try contradiction; exact H.
+  - cbn in *. induction IH as [|x l Hx Hl IH']; [apply oks_nil|].
+    cbn in H. apply oks_app in H. destruct H as [H1 H2]. cbn. apply oks_app. split; [apply Hx; exact H1|apply IH'; exact H2].
+  - cbn in *. induction IH as [|[k x] kvs Hx Hl IH']; [apply oks_nil|].
+    cbn in H. apply oks_app in H. destruct H as [H1 H2]. cbn. apply oks_app. split; [|apply IH'; exact H2].
+    cbn in Hx. specialize (Hx H1).
+    destruct (key_eq k tls_key_json); [|exact Hx].
+    destruct x; try exact Hx.
+    + destruct (String.eqb s ""); apply oks_nil.
+    + destruct (String.eqb s "") eqn:Es; cbn.
+      * exact H1.
+      * constructor; [apply ok_placeholder|constructor].
+Qed.
+
 Lemma zipf_plain f fds : (forall fd x, plain x -> plain (f fd x)) -> forall vs, Forall plain vs -> Forall plain (zipf f fds vs).
 Proof.
   intros Hf vs. revert fds. induction vs as [|x vs IH]; intros fds H; cbn; [constructor|].
@@ -867,15 +885,22 @@ Proof.
   rewrite Esel in Hs. cbn in Hs. eapply oks_incl; eauto.
 Qed.
 
-Theorem no_leak : graph_ok -> forall fuel e next0 c, plain c ->
-  oks (jsecrets (dump_endpoint fuel e next0 (taint cfg_structs root_ty (live c)))).
+Theorem no_leak_with : graph_ok -> forall scrub fuel e next0 c, plain c ->
+  oks (jsecrets (dump_endpoint_with scrub fuel e next0 (taint cfg_structs root_ty (live c)))).
 Proof.
-  intros G fuel e next0 c Hp. unfold dump_endpoint.
+  intros G scrub fuel e next0 c Hp. unfold dump_endpoint_with.
   pose proof (dump_value_ok G e next0 c Hp) as Hv.
   destruct (dump_value e next0 (taint cfg_structs root_ty (live c))) as [[t v] w].
-  destruct e; try (eapply oks_incl; [apply encode_secrets|exact Hv]).
+  assert (He : oks (jsecrets (encode cfg_structs fuel t v))) by (eapply oks_incl; [apply encode_secrets|exact Hv]).
+  assert (Hs : oks (jsecrets (if scrub then blank_json_keys (encode cfg_structs fuel t v) else encode cfg_structs fuel t v)))
+    by (destruct scrub; [apply blank_oks; exact He|exact He]).
+  destruct e; try exact Hs.
   cbn. apply oks_nil.
 Qed.
+
+Theorem no_leak : graph_ok -> forall fuel e next0 c, plain c ->
+  oks (jsecrets (dump_endpoint fuel e next0 (taint cfg_structs root_ty (live c)))).
+Proof. intros G fuel e next0 c Hp. apply no_leak_with; assumption. Qed.
 
 (* ---- purity *)
 Definition all_safe : bool := forallb (fun e => safe (endpoint_prog e)) all_endpoint_kinds.
@@ -1008,3 +1033,58 @@ Qed.
 (* marked or not, nothing marked survives (the form used by c20_no_leak) *)
 Theorem blank_taint_keys_ok : forall j, jsecrets j = [] -> oks (jsecrets (blank_json_keys (taint_keys j))).
 Proof. intros j H. apply blank_keyed_ok. apply taint_keys_keyed. apply jplain_keyed. exact H. Qed.
+
+(* ================================================================================================ *)
+(* 7. the scrub of the serialized dump: opaque blobs (filter configs, ...) and anything else         *)
+(* ================================================================================================ *)
+Lemma scrub_on : src_dump_scrubs_output = true. Proof. reflexivity. Qed.
+
+(* whatever the configuration value is - typed or not, marked or not, well-formed or not - and whatever the typed
+   program did or did not do: in the response every string member named "private_key", at any depth, under any
+   position of the graph, is empty or the placeholder *)
+Theorem dump_no_key_strings_with : forall fuel e next0 c, oks (key_strings (dump_endpoint_with true fuel e next0 c)).
+Proof.
+  intros fuel e next0 c. unfold dump_endpoint_with.
+  destruct (dump_value e next0 c) as [[t v] w].
+  destruct e; try apply blank_key_strings.
+  cbn. apply oks_nil.
+Qed.
+Theorem dump_no_key_strings : forall fuel e next0 c, oks (key_strings (dump_endpoint fuel e next0 c)).
+Proof. intros. unfold dump_endpoint. rewrite scrub_on. apply dump_no_key_strings_with. Qed.
+
+(* and the scrub changes nothing but those strings *)
+Theorem dump_scrub_only_keys : forall fuel e next0 c,
+  same_but_keys (dump_endpoint_with false fuel e next0 c) (dump_endpoint_with true fuel e next0 c).
+Proof.
+  intros fuel e next0 c. unfold dump_endpoint_with.
+  destruct (dump_value e next0 c) as [[t v] w].
+  destruct e; apply blank_same_but_keys.
+Qed.
+
+(* covers_all accounts for the opaque positions through the scrub *)
+Lemma covers_all_blobs : covers_all = true -> blob_positions_ok = true /\ keylike_ok = true.
+Proof.
+  unfold covers_all. intros H.
+  destruct blob_positions_ok eqn:E1; [|exfalso; rewrite !andb_false_r in H; cbv [andb] in H; discriminate].
+  destruct keylike_ok eqn:E2; [|exfalso; rewrite !andb_false_r in H; cbv [andb] in H; discriminate].
+  split; reflexivity.
+Qed.
+
+(* the shape before the repair (typed program only): a filter configuration's key is printed; with the scrub it is not *)
+Lemma blob_leak_without_scrub :
+  plain w_conf_blob /\
+  leaked (key_strings (dump_endpoint_with false 64 EAllListeners w_next0_blob (taint cfg_structs root_ty (live w_conf_blob))))
+    = ["KEY-FILTER-TOP"; "KEY-FILTER-NESTED"] /\
+  leaked (key_strings (dump_endpoint_with false 64 EFull w_next0_blob (taint cfg_structs root_ty (live w_conf_blob))))
+    = ["KEY-FILTER-TOP"; "KEY-FILTER-NESTED"] /\
+  leaked (key_strings (dump_endpoint 64 EAllListeners w_next0_blob (taint cfg_structs root_ty (live w_conf_blob)))) = [] /\
+  leaked (key_strings (dump_endpoint 64 EFull w_next0_blob (taint cfg_structs root_ty (live w_conf_blob)))) = [] /\
+  List.length (key_strings (dump_endpoint 64 EFull w_next0_blob (taint cfg_structs root_ty (live w_conf_blob)))) = 7.
+Proof.
+  split; [vm_compute; reflexivity|].
+  split; [vm_compute; reflexivity|].
+  split; [vm_compute; reflexivity|].
+  split; [vm_compute; reflexivity|].
+  split; [vm_compute; reflexivity|].
+  vm_compute. reflexivity.
+Qed.
